@@ -12,6 +12,8 @@ import hashlib
 import json
 import os
 import shutil
+import signal
+import time
 
 import vlib
 from vlib import sh, log
@@ -273,8 +275,9 @@ def collect_failures(prop, summ, limit=20):
     return fails
 
 
-def shrink(prop, fail, workdir, budget=80):
-    """delta-debugging on the event list of a failing scenario (best effort)"""
+def shrink(prop, fail, workdir, budget=80, seconds=90):
+    """delta-debugging on the event list of a failing scenario (best effort; bounded by a replay count AND wall clock)"""
+    t_end = time.time() + seconds
     scen = fail["case"].get("scenario")
     if not scen:
         return fail
@@ -287,7 +290,9 @@ def shrink(prop, fail, workdir, budget=80):
         os.makedirs(d)
         sp = os.path.join(d, "s.json")
         json.dump(dict(name="shrink", opt=scen["opt"], events=cand), open(sp, "w"))
-        rc, out, summ, _ = run_raftsim("-mode replay %s" % sp, os.path.join(d, "o"), timeout=120)
+        if time.time() > t_end:
+            return False
+        rc, out, summ, _ = run_raftsim("-mode replay %s" % sp, os.path.join(d, "o"), timeout=20)
         if not summ:
             return False
         for s in summ["schedules"]:
@@ -302,7 +307,7 @@ def shrink(prop, fail, workdir, budget=80):
         evs = evs[:seq]
         budget -= 1
     n = 2
-    while len(evs) >= 2 and budget > 0:
+    while len(evs) >= 2 and budget > 0 and time.time() < t_end:
         chunk = max(1, len(evs) // n)
         reduced = False
         for i in range(0, len(evs), chunk):
@@ -313,7 +318,7 @@ def shrink(prop, fail, workdir, budget=80):
                 n = max(n - 1, 2)
                 reduced = True
                 break
-            if budget <= 0:
+            if budget <= 0 or time.time() > t_end:
                 break
         if not reduced:
             if chunk == 1:
@@ -326,8 +331,22 @@ def shrink(prop, fail, workdir, budget=80):
     return out
 
 
+class _Deadline(Exception):
+    pass
+
+
+def _alarm(signum, frame):
+    raise _Deadline()
+
+
 def run(ctx, prop):
     quick = ctx.tier == "quick"
+    # wall-clock guard: every phase below gets at most what is left of this budget (plus a floor that lets it report)
+    t_run0 = time.time()
+    budget_s = 900 if quick else 3300
+
+    def left(floor=60):
+        return int(max(floor, budget_s - (time.time() - t_run0)))
     ok, out, _ = vlib.go_build("raftsim")
     if not ok:
         log("BUILD FAILED (harness raftsim):\n" + out[-3000:])
@@ -375,7 +394,7 @@ def run(ctx, prop):
 
     # ---- 1. the model correspondence: real raftLog / storages vs the extracted model ----
     nlog = 400 if quick else 6000
-    rc, out, _, dlog = cached_raftsim(ctx, "log", "-mode log -seed %d -n %d" % (ctx.seed, nlog))
+    rc, out, _, dlog = cached_raftsim(ctx, "log", "-mode log -seed %d -n %d" % (ctx.seed, nlog), timeout=left(120))
     d = os.path.join(work, "log")
     shutil.rmtree(d, ignore_errors=True)
     os.makedirs(d)
@@ -385,7 +404,7 @@ def run(ctx, prop):
     if rc != 0:
         log("HARNESS RUN FAILED (log mode):\n" + out[-3000:])
         raise SystemExit(2)
-    rc2, out2, _ = sh("%s < cases.tsv > model.out" % vlib.modelrun_path("Raft"), cwd=d, timeout=1200)
+    rc2, out2, _ = sh("%s < cases.tsv > model.out" % vlib.modelrun_path("Raft"), cwd=d, timeout=left(120))
     if rc2 != 0:
         log("MODEL RUN FAILED:\n" + out2[-3000:])
         raise SystemExit(2)
@@ -401,14 +420,14 @@ def run(ctx, prop):
     core_plans = [("core-mix", "-mode core -seed %d -n %d -events %d" % (ctx.seed, 30 if quick else 300, 900 if quick else 1500)),
                   ("core-paging", "-mode core -seed %d -n %d -events %d -profile paging" % (ctx.seed + 7, 20 if quick else 200, 1000 if quick else 1500))]
     for cname, cargs in core_plans:
-        rc, out, _, dcore = cached_raftsim(ctx, cname, cargs)
+        rc, out, _, dcore = cached_raftsim(ctx, cname, cargs, timeout=left(120))
         if rc != 0:
             log("HARNESS RUN FAILED (core mode):\n" + out[-3000:])
             raise SystemExit(2)
         dd = os.path.join(work, cname)
         shutil.rmtree(dd, ignore_errors=True)
         os.makedirs(dd)
-        rc2, out2, _ = sh("%s < %s > model.out" % (vlib.modelrun_path("Raft"), os.path.join(dcore, "core-cases.tsv")), cwd=dd, timeout=1800)
+        rc2, out2, _ = sh("%s < %s > model.out" % (vlib.modelrun_path("Raft"), os.path.join(dcore, "core-cases.tsv")), cwd=dd, timeout=left(120))
         if rc2 != 0:
             log("MODEL RUN FAILED (core):\n" + out2[-3000:])
             raise SystemExit(2)
@@ -458,7 +477,8 @@ def run(ctx, prop):
                 [("mem", 3000, 1500, 10), ("rocks-mem", 300, 1200, 0), ("rocks-pebble", 40, 800, 0)]
         for storage, n, events, ntr in plans:
             rc, out, summ, dd = cached_raftsim(ctx, "sim-" + storage,
-                                               "-mode sim -seed %d -n %d -events %d -trace %d -storage %s" % (ctx.seed, n, events, ntr, storage))
+                                               "-mode sim -seed %d -n %d -events %d -trace %d -storage %s" % (ctx.seed, n, events, ntr, storage),
+                                               timeout=left(180))
             if not summ:
                 log("HARNESS RUN FAILED (sim %s):\n" % storage + out[-3000:])
                 raise SystemExit(2)
@@ -477,7 +497,7 @@ def run(ctx, prop):
                 if bool(pv) != bool(gv):
                     mism.append(("oracle-crosscheck:" + os.path.basename(tp), json.dumps(gv)[:300], json.dumps(pv)[:300]))
         if not quick:
-            rc, out, summ, dd = cached_raftsim(ctx, "crashpoints", "-mode crashpoints -seed %d -n %d -events %d" % (ctx.seed, 10, 220))
+            rc, out, summ, dd = cached_raftsim(ctx, "crashpoints", "-mode crashpoints -seed %d -n %d -events %d" % (ctx.seed, 10, 220), timeout=left(180))
             if not summ:
                 log("HARNESS RUN FAILED (crashpoints):\n" + out[-3000:])
                 raise SystemExit(2)
@@ -486,10 +506,18 @@ def run(ctx, prop):
 
     # ---- 4. the abstract protocol: traces of the real cluster through the extracted acceptor (coq/RaftAbs) ----
     abs_cov = None
-    if not ctx.replay:
+    if not ctx.replay and (fails or mism):
+        # a verdict exists already (direct oracle / correspondence); traces of a broken implementation can make the
+        # directed acceptor scenarios wait for states that never come, so the acceptor is not run on top of it
+        abs_cov = dict(skipped="violations were already found by the direct oracles / the correspondence runs")
+    elif not ctx.replay:
+        acc_limit = left(240) if quick else left(600)
+        old_handler = signal.signal(signal.SIGALRM, _alarm)
+        signal.alarm(acc_limit)
         try:
             import _raftabs
             n_tr, n_steps, rejected = _raftabs.run_acceptor(ctx, ctx.tier)
+            signal.alarm(0)
             abs_cov = dict(traces=n_tr, abstract_steps=n_steps, rejected=len(rejected))
             for k in ("labels", "skipped", "skipped_events", "single_config_traces", "overlap_ok_traces", "accepted_traces"):
                 if k in _raftabs.LAST:
@@ -498,11 +526,19 @@ def run(ctx, prop):
             for rj in rejected[:10]:
                 mism.append(("raftabs-acceptor:%s:%s" % (rj.get("trace"), rj.get("seq")), "%s (implementation trace)" % rj.get("event"),
                              "rejected by the abstract protocol: %s" % rj.get("why")))
+        except _Deadline:
+            abs_cov = dict(timeout_s=acc_limit)
+            mism.append(("raftabs-acceptor:timeout", "trace generation + acceptor did not finish within %d s (on the unchanged code: < 90 s)" % acc_limit,
+                         "no verdict of the abstract protocol on this run"))
         except ImportError:
             notes.append("props/_raftabs.py not present: abstract-protocol acceptor not run")
         except RuntimeError as ex:
+            signal.alarm(0)
             log("RAFTABS BUILD FAILED:\n" + str(ex)[-3000:])
             raise SystemExit(2)
+        finally:
+            signal.alarm(0)
+            signal.signal(signal.SIGALRM, old_handler)
 
     if fails:
         sim_fails = [f for f in fails if f["case"].get("scenario")]
@@ -512,7 +548,7 @@ def run(ctx, prop):
 
     def search():
         dd = os.path.join(work, "search")
-        rc, out, summ, dt = run_raftsim("-mode sim -seed %d -n %d -events %d" % (ctx.seed + 1000003, 1500, 1500), dd)
+        rc, out, summ, dt = run_raftsim("-mode sim -seed %d -n %d -events %d" % (ctx.seed + 1000003, 400 if quick else 1500, 1500), dd, timeout=left(240))
         if not summ:
             return []
         fs = collect_failures(prop, summ)
@@ -529,7 +565,7 @@ def run(ctx, prop):
         traces_validated_against_impl=total_traces + nlogcases + core_cov["cases"],
         evaluations=total_records + nlogcases + core_cov["cases"],
         distinct_nontrivial=len(distinct),
-        rule="schedules from one seeded PRNG (profiles steady/elect/crashy/conf/snap/stale/uniform; groups of 1..5 voters + learners added by "
+        rule="schedules from one seeded PRNG (profiles steady/elect/crashy/conf/snap/stale/paging/lagsnap/uniform; groups of 1..5 voters + learners added by "
              "conf change; preVote/checkQuorum on and off; MaxSizePerMsg 0 and MaxUint64; MemoryStorage and RocksStorage). A schedule is "
              "non-trivial when a leader was elected and an entry beyond the bootstrap configuration was committed; distinct by a hash of the "
              "per-record (term, commit, last index, role) stream. Log-mode cases: random op sequences on the real raftLog/storages.",
